@@ -95,7 +95,7 @@ pub fn property() -> Property {
         assumptions: &["no reference model involved: the library is compared with itself under a symmetry of the rules"],
         subchecks: vec![SubCheck {
             name: "generated_positions",
-            driver: Driver::Generated { gen: gen_pos_case, genome_len: 192, quick: 800_000, thorough: 16_000_000 },
+            driver: Driver::Generated { gen: gen_pos_case, genome_len: 192, quick: 4_000_000, thorough: 32_000_000 },
             check: check_case,
             configs: Configs::ReleaseOnly,
             required: &["horizontal", "castling_right", "ep_mark", "has_outcome", "has_pawns"],
